@@ -7,8 +7,10 @@ the *same definitions* at any ordered field, with `sqrt` a parameter.
 
 Python as written (quirks kept):
 * `_combine_by_ckey`: dict in insertion order keyed by the STRING `f"{kind}:{id}:{attr}"` (so ids
-  containing `:` can collide), first-listed exemplar keeps kind/id/attr, deltas added left to right,
-  `_min_optional_int` on `op_idx`/`idx`, output `sorted` by the string key.
+  containing `:` can collide), first-listed exemplar keeps kind/id/attr, the contributions to a key
+  are collected and summed in ascending order of value (`_sum_canonical`, fix
+  `proposed_fixes/C03_combine_sum_canonical_order.diff`), `_min_optional_int` on `op_idx`/`idx`,
+  output `sorted` by the string key.
 * `_collect_blocked_ops`: empty kind skipped, falsy cooldown skipped, `isinstance(last_t, int)`,
   `turn - last_t < int(cd)`.
 * `_novelty_clamp`: `cap = abs(cap)`, strict `mag > cap`, sign test `d.delta > 0`.
@@ -74,10 +76,29 @@ def upd [Num α] : List (Delta α) → Delta α → List (Delta α)
   | [], d => [d]
   | e :: rest, d => if ckey e == ckey d then merge e d :: rest else e :: upd rest d
 
+/-- The accumulator dict after the loop: one entry per string key in first-occurrence order, with the
+first-listed exemplar's kind/id/attr and the `_min_optional_int` provenance.  (Its `delta` field is
+the legacy left-to-right sum; the repaired code no longer uses it, see `canonEntry`.) -/
 def combineAcc [Num α] (ds : List (Delta α)) : List (Delta α) := ds.foldl upd []
 
+/-- `accum[ckey][0]`: the contributions `float(d.delta)` to one string key, in listing order. -/
+def contribs (key : Str) (ds : List (Delta α)) : List α :=
+  (ds.filter (fun d => ckey d == key)).map (·.delta)
+
+/-- `_sum_canonical`: `ordered = sorted(vals); total = ordered[0]; for v in ordered[1:]: total += v`
+(`sorted` = stable insertion sort on the carrier's `≤`; `vals` is never empty in `_combine_by_ckey`). -/
+def sumSorted [Num α] (vs : List α) : α :=
+  match isort Num.le vs with
+  | [] => Num.zero
+  | v :: rest => rest.foldl Num.add v
+
+/-- `val = _sum_canonical(vals)` for the entry `e` of the accumulator. -/
+def canonEntry [Num α] (ds : List (Delta α)) (e : Delta α) : Delta α :=
+  { e with delta := sumSorted (contribs (ckey e) ds) }
+
 /-- `_combine_by_ckey`. -/
-def combine [Num α] (ds : List (Delta α)) : List (Delta α) := isort ckeyLe (combineAcc ds)
+def combine [Num α] (ds : List (Delta α)) : List (Delta α) :=
+  isort ckeyLe ((combineAcc ds).map (canonEntry ds))
 
 /-- `dict.get`. -/
 def lookup {β : Type} (k : Str) : List (Str × β) → Option β
